@@ -573,6 +573,10 @@ func runC16(args []string) int {
 					if k := strings.Index(f, ";UM"); k >= 0 {
 						f = f[:k]
 					}
+					// the eight decodes of one stream run in one process: the Distance accumulated from
+					// compressed_speed_distance continues from run to run (known finding of C08/C18, not an
+					// effect of the options)
+					f = maskAccumText(f)
 				}
 				return fmt.Sprintf("panic=%v err=%d pos=%d %s", o.Panic != "", o.ErrClass, o.Pos, f)
 			}
